@@ -1,6 +1,7 @@
 #!/bin/sh
 # helper for development: ./vxrun.sh <slice> [verus args]
 RT=$(ls -d ~/.cargo/registry/src/*/rapid_time-0.1.2)
+RS=$(ls -d ~/.cargo/registry/src/*/rapid_solve-0.1.7)
 s=$1; shift
-/verif/build/vx-target/release/vx /verif/slices/$s.vs --crate-dir rapid_time=$RT --out /verif/build/$s.rs --map /verif/build/$s.map.json || exit 2
+/verif/build/vx-target/release/vx /verif/slices/$s.vs --crate-dir rapid_time=$RT --crate-dir rapid_solve=$RS --out /verif/build/$s.rs --map /verif/build/$s.map.json || exit 2
 verus /verif/build/$s.rs --multiple-errors 20 --rlimit 60 "$@" 2>&1 | grep -v "autoderive" 
